@@ -65,6 +65,8 @@ def abstract_op(c):
     if isinstance(c, rc.ChangeSet):
         return ["set", c.description, [abstract_op(x) for x in c.changes]]
     if isinstance(c, rc.ChangeContents):
+        if isinstance(c.new_contents, bytes):
+            return ["bytes", c.resource.path, c.new_contents.decode("latin-1")]
         return ["edit", c.resource.path, c.new_contents]
     if isinstance(c, rc.MoveResource):
         return ["move", c.resource.path, c.new_resource.path, "d" if c.resource.is_folder() else "f", False]
